@@ -23,8 +23,58 @@ func init() {
 			"nonce, value/payload, destination, attached function and attached arguments — extracted as linear forms a·i + b·n + c over loop index and decoded count — equal those the parser binds to ESDTTokenName, ESDTTokenNonce, ESDTValue, RcvAddr, CallFunction " +
 			"and CallArgs. R4: the destination-side guards accept what the sender side emits (emitted argument count as a linear form versus the pre-guard). R5: destination-side rejections are not decided by argument content. R6: below the three transfer functions no error is dropped (shared with C17-R1): an accepted call has moved all it lists. Does NOT decide: numeric equality of parsed values and ledger diffs; function names containing '@'.",
 		Trusted: []string{"hex.EncodeToString / hex.DecodeString are inverse", "A-protomsg"},
-		Rules:   []func(*Ctx){c10r1, c10r3, c10r4, c10r5, c10r6},
+		Rules:   []func(*Ctx){c10r1, c10r3, c10r4, c10r5, c10r6, c10r7},
 	})
+}
+
+// c10r7: numbers travel as the big-endian bytes of their unsigned value (the other side decodes with SetBytes / Uint64). A
+// 64-bit unsigned quantity (nonce, count) that is converted to int64 on its way into a big.Int changes its magnitude above
+// 2^63: the message, the parser's report and the log name another number than the ledger used.
+func c10r7(c *Ctx) {
+	const rule = "C10-R7"
+	c.Rule(rule, "unsigned 64-bit quantities are never encoded through a signed big.Int constructor", 1)
+	n := 0
+	for _, fn := range c.P.Funcs {
+		if !c.P.InPkgs(fn, "builtInFunctions") && !c.P.InPkgs(fn, "parsers") {
+			continue
+		}
+		e := c.P.Env(fn)
+		for _, b := range fn.Blocks {
+			for _, in := range b.Instrs {
+				call, ok := in.(*ssa.Call)
+				if !ok {
+					continue
+				}
+				name := CalleeName(call)
+				if name != "math/big.NewInt" && name != "(*math/big.Int).SetInt64" {
+					continue
+				}
+				arg := call.Call.Args[len(call.Call.Args)-1]
+				if _, isConst := arg.(*ssa.Const); isConst {
+					continue
+				}
+				n++
+				construct := name[strings.LastIndex(name, ".")+1:] + "(" + e.Term(arg) + ")"
+				cv, isConv := arg.(*ssa.Convert)
+				unsigned64 := false
+				if isConv {
+					if bt, ok := cv.X.Type().Underlying().(*types.Basic); ok && (bt.Kind() == types.Uint64 || bt.Kind() == types.Uint || bt.Kind() == types.Uintptr) {
+						unsigned64 = true
+					}
+				}
+				if unsigned64 {
+					c.FailX(Oblig{Rule: rule, Func: FuncName(fn), Construct: construct, Pos: c.P.InstrPos(call), Kind: "violation",
+						Detail:   "a 64-bit unsigned quantity is converted to int64 before it becomes a big.Int: above 2^63 its bytes are those of another number (the magnitude of the negative value), so what is written into the message / key / log is not what the ledger used",
+						Expected: "big.NewInt(0).SetUint64(x)"})
+				} else {
+					c.OK(rule, FuncName(fn), construct, c.P.InstrPos(call), "the operand is not an unsigned 64-bit quantity")
+				}
+			}
+		}
+	}
+	if n == 0 {
+		c.Triv(rule, "-", "no non-constant signed big.Int constructor", "-", "nothing to check")
+	}
 }
 
 // c10r6: what the parser reports for an accepted transfer is what the ledger moved only if an accepted transfer has moved
@@ -306,11 +356,16 @@ func (t roleTable) render() string {
 }
 
 // indexOfArgTerm: for a term denoting Arguments[IDX] (element load or its address) return the LE of IDX via the value.
-func argIndexLE(e *Env, v ssa.Value) (LE, bool) {
+func argIndexLE(e *Env, v ssa.Value) (LE, bool) { return argIndexLERec(e, v, 0) }
+
+func argIndexLERec(e *Env, v ssa.Value, depth int) (LE, bool) {
+	if depth > 12 {
+		return LE{}, false
+	}
 	// strip load
 	if u, ok := v.(*ssa.UnOp); ok && u.Op == token.MUL {
 		if f := forwarded(u); f != nil {
-			return argIndexLE(e, f)
+			return argIndexLERec(e, f, depth+1)
 		}
 		v = u.X
 	}
@@ -328,11 +383,11 @@ func argIndexLE(e *Env, v ssa.Value) (LE, bool) {
 		}
 	case *ssa.Parameter:
 		if a, pe := e.actual(x); a != nil {
-			return argIndexLE(pe, a)
+			return argIndexLERec(pe, a, depth+1)
 		}
 	case *ssa.Phi:
 		for _, ed := range x.Edges {
-			if l, ok := argIndexLE(e, ed); ok {
+			if l, ok := argIndexLERec(e, ed, depth+1); ok {
 				return l, true
 			}
 		}
